@@ -62,6 +62,7 @@ fn main() {
     match (args.module.as_str(), args.mode.as_str()) {
         ("cp", "replay") => cp::replay(&args, &mut s),
         ("cp", "record") => cp::record(&args, &mut s),
+        ("cp", "negzero") => cp::negzero(&args, &mut s),
         ("framing", "replay") => framing::replay(&args, &mut s),
         ("framing", "record") => framing::record(&args, &mut s),
         ("timing", "replay") => timing::replay(&args, &mut s),
